@@ -121,10 +121,13 @@ CHECKS = {
              "must have a check-mode read of the same path (same MIR local, or the same Metadata-derived identity across "
              "gen_filelist/check_bundle); check-mode writes go to the temp dir only; all_pass is cleared only in check mode; "
              "fmt's write and fmt --check's failure sit under the same `input != formatted` must-fact on the text read from "
-             "the path written. Two known findings (F7a source map, F7b filelist) are listed in known_findings.json. It does "
+             "the path written; path-sensitively, every feasible check-mode path of the per-file body stages or compares the emitted file "
+             "(regions bundle x $std), opt.check reaches nothing but branch conditions, and fmt clears all_pass / writes on every path "
+             "where the text differs. Three known findings (F7a source map, F7b filelist, F7c $std outputs written in check mode) are "
+             "listed in known_findings.json. It does "
              "not decide that the compared bytes equal the bytes write mode would produce for every project state.",
         design_ref="DESIGN.md section 3 C27, section 8",
-        technique="forward must-analysis (mode flag, comparison outcome) over MIR CFG; path identity by local / provenance",
+        technique="forward must-analysis (mode flag, comparison outcome) over MIR CFG; acyclic path enumeration with branch facts and feasibility; value-flow of the mode flag; path identity by local / provenance",
     ),
     "C28": dict(
         category="proof",
